@@ -68,6 +68,19 @@ def kinds(b):
     K.append(Kind("Array.assert_eq(int,fxp)", 2,
                   lambda ns, ops, prm: ns.ar.Array([ops[0]]).assert_eq(ns.ar.Array([ns.fx.LinCombFxp(ops[1], False)])),
                   lambda v, prm: v[0] * (1 << env.bind().fx.resolution) == v[1]))
+    # arrays that still hold plain entries (Array([3, 4, 5]) keeps them until they are overwritten): today refused on a plain left
+    # entry (AttributeError); if accepted, two different plain entries make the arrays unequal whatever the secret entries are
+    K.append(Kind("Array.assert_eq(different plain entries)", 2,
+                  lambda ns, ops, prm: ns.ar.Array([3, ops[0]]).assert_eq(ns.ar.Array([4, ops[1]])), lambda v, prm: False))
+    K.append(Kind("Array.assert_eq(equal plain entries)", 2,
+                  lambda ns, ops, prm: ns.ar.Array([3, ops[0]]).assert_eq(ns.ar.Array([3, ops[1]])), lambda v, prm: v[0] == v[1]))
+    K.append(Kind("Array.assert_eq(plain entry vs secret)", 2,
+                  lambda ns, ops, prm: ns.ar.Array([ops[0], 3]).assert_eq(ns.ar.Array([ops[0], ops[1]])), lambda v, prm: v[1] == 3))
+    # arrays of different lengths are not equal whatever the entries are (today: refused with ValueError)
+    K.append(Kind("Array.assert_eq(longer,shorter)", 2,
+                  lambda ns, ops, prm: ns.ar.Array([ops[0], ops[1]]).assert_eq(ns.ar.Array([ops[0]])), lambda v, prm: False))
+    K.append(Kind("Array.assert_eq(shorter,longer)", 2,
+                  lambda ns, ops, prm: ns.ar.Array([ops[0]]).assert_eq(ns.ar.Array([ops[0], ops[1]])), lambda v, prm: False))
     # nested arrays with the same number of rows but rows of other lengths are not equal, whatever the entries are
     K.append(Kind("Array.assert_eq(ragged rows)", 2,
                   lambda ns, ops, prm: ns.ar.Array([ns.ar.Array([ops[0], ops[1]]), ns.ar.Array([ns.rt.LinComb.ONE_SAFE * 1])]).assert_eq(
@@ -190,7 +203,15 @@ def check_kind(kind, prm, p, b, r, stats, known, found):
     case = {"kind": kind.name, "param": prm, "p": p, "b": b, "r": r}
     if trace is None:
         stats.case(None, False, ("never-accepted:" + kind.name,))
-        # nothing accepted in the window: the relation must then be empty in the window as well
+        # nothing accepted in the window. With error checking switched off the same call may run: what it emits must then be
+        # unsatisfiable for operand values for which the relation is false (the assertion is in the circuit or it is nowhere)
+        for vals in window[:: max(1, len(window) // 9)][:9]:
+            ok, tr, ov, exc = attempt(kind, vals, prm, p, b, r, ignore=True)
+            if ok and not kind.rel(vals, prm) and satisfiable(tr, ov, vals):
+                key = "%s.ignored-false-assertion-satisfiable" % kind.name
+                if key not in found and key not in known:
+                    found[key] = {"case": dict(case, vals=list(vals), ignore=True), "key": key,
+                                  "msg": "%s (p=%d, bitlength %d): refused for every operand value normally, but with errors ignored it runs for operand %r, for which the relation is false, and what it emits is satisfiable" % (label, p, b, vals)}
         return
     # circuit on the error path == circuit of the accepted call (observation point of the property)
     bad_samples = [v for v in window if v not in A][:: max(1, len(window) // 7)][:7]
